@@ -5,7 +5,7 @@
    openfile_depth) and the reference's budget (spec_max_links) are the
    constants goextract read from those files on this run. *)
 From Coq Require Import Sorting.Sorted.
-From Apko Require Import Base.Prelude Model.MemFS Spec.FsSpec Proofs.FsProofs Proofs.FsLaws Proofs.FsWf Proofs.FsAgree Proofs.FsReach Proofs.FsTame Proofs.FsTameOps Generated.FsConsts.
+From Apko Require Import Base.Prelude Model.MemFS Spec.FsSpec Proofs.FsProofs Proofs.FsLaws Proofs.FsWf Proofs.FsAgree Proofs.FsReach Proofs.FsTame Proofs.FsTameOps Proofs.FsTameReach Generated.FsConsts.
 Open Scope string_scope. Open Scope list_scope.
 
 (* the limits the theorems below are about: both files say the same, and it is
@@ -333,6 +333,24 @@ Proof.
 Qed.
 Print Assumptions c17_refines_syntactic_reachable.
 
+(* the class is closed under the code's steps: if every Symlink operation of a
+   sequence carries a tame target ([tame_op], a boolean on operations), every
+   state the code reaches is tame — so the refinement needs, of the state, only
+   the weight certificate *)
+Theorem c17_tame_invariant :
+  (forall b s o, tame_op o = true -> tame_links (heap s) = true -> tame_links (heap (fst (model_step b s o))) = true) /\
+  (forall b ops, forallb tame_op ops = true -> tame_links (heap (reach b ops)) = true).
+Proof. split; [exact model_step_tame | exact reach_tame]. Qed.
+Print Assumptions c17_tame_invariant.
+
+Theorem c17_refines_syntactic_ops : forall b ops o w,
+  let s := reach b ops in
+  forallb tame_op ops = true -> weights_ok w (heap s) = true -> op_weight w o <= spec_max_links -> dot_ok b o = true ->
+  (forall tag, corner b s o = Some tag -> tag = t_link) ->
+  model_step b s o = spec_step s o.
+Proof. exact refines_syntactic_ops. Qed.
+Print Assumptions c17_refines_syntactic_ops.
+
 (* non-vacuity: links to directories, links through links, a link whose target
    runs through another link; the conditions hold (with the computed weight)
    and the operations are inside the envelope on both backends *)
@@ -342,7 +360,7 @@ Definition c17_tame_demo : list op :=
 Example c17_refines_syntactic_nonvacuous : forall b,
   let s := reach b c17_tame_demo in
   let w := auto_w 4 (heap s) in
-  tame_links (heap s) = true /\ weights_ok w (heap s) = true /\ List.map w ["a"; "l"; "r"; "m"; "k"] = [0; 1; 1; 2; 4] /\
+  forallb tame_op c17_tame_demo = true /\ tame_links (heap s) = true /\ weights_ok w (heap s) = true /\ List.map w ["a"; "l"; "r"; "m"; "k"] = [0; 1; 1; 2; 4] /\
   forallb (fun o => Nat.leb (op_weight w o) spec_max_links && dot_ok b o &&
                     match corner b s o with None => true | Some _ => false end)
     [ ReadFile ["k"]; ReadFile ["m"; "r"]; OpenFile ["m"; "new"] (mkFl ARdWr false true false false) 420%N;
